@@ -117,7 +117,7 @@ def _groupby_slice_apply(
     dropna = {"dropna": dropna} if dropna is not None else {}
     observed = {"observed": observed} if observed is not None else {}
     g = df.groupby(grouper, group_keys=group_keys, **observed, **dropna)
-    if key:
+    if key is not None:
         g = g[key]
     return g.apply(func, *args, **kwargs)
 
@@ -138,7 +138,7 @@ def _groupby_slice_transform(
     dropna = {"dropna": dropna} if dropna is not None else {}
     observed = {"observed": observed} if observed is not None else {}
     g = df.groupby(grouper, group_keys=group_keys, **observed, **dropna)
-    if key:
+    if key is not None:
         g = g[key]
 
     # Cannot call transform on an empty dataframe
@@ -165,7 +165,7 @@ def _groupby_slice_shift(
     if shuffled:
         df = df.sort_index()
     g = df.groupby(grouper, group_keys=group_keys, **observed, **dropna)
-    if key:
+    if key is not None:
         g = g[key]
     with check_groupby_axis_deprecation():
         result = g.shift(**kwargs)
